@@ -23,6 +23,8 @@ func init() {
 			c.floor("CS.RANGE", 2)
 			c.runOptionLivenessFields("OL", "model3d", "DualContouring", "MaxGos", "BufferSize")
 			c.floor("OL", 2)
+			c.runWrongVar("WRONGVAR", c.libPkgs()[:3], nil)
+			c.floor("WRONGVAR", 2)
 		},
 		SelfTest: []Mutation{
 			{Name: "dual contouring workers append to the shared interior list", File: "model3d/dc.go",
